@@ -7,7 +7,7 @@ import numpy as np
 import verde as vd
 from hypothesis import strategies as st
 
-from vlib import blocks, gen
+from vlib import blocks, build, gen
 from vlib.oracles import EPS
 from vlib.runner import Sub, Violation
 
@@ -59,7 +59,7 @@ def mean_cases(draw):
         weights = [draw(st.lists(st.one_of(st.integers(1, 16).map(lambda k: k / 4.0), gen.finite(0.01, 100)), min_size=n, max_size=n))
                    for _ in range(ncomp)]
     return dict(layout=lay, points=pts, data=data, weights=weights, wmode=wmode, center=draw(st.booleans()),
-                shape=draw(st.sampled_from(blocks.shape_options(n))), readonly=draw(st.booleans()))
+                shape=draw(st.sampled_from(blocks.shape_options(n))), readonly=draw(st.booleans()), orders=draw(build.orders_strategy()))
 
 
 def expected_weights(variances):
@@ -75,10 +75,11 @@ def check_mean(case, ctx):
     lay = case["layout"]
     shape = case["shape"]
     xy = [blocks.point_xy(lay, p) for p in case["points"]]
-    e = np.array([p[0] for p in xy]).reshape(shape)
-    n = np.array([p[1] for p in xy]).reshape(shape)
-    data = tuple(np.array(d).reshape(shape) for d in case["data"])
-    weights = None if case["weights"] is None else tuple(np.array(w).reshape(shape) for w in case["weights"])
+    lay_ = build.Lay(case.get("orders"))
+    e = lay_([p[0] for p in xy], shape)
+    n = lay_([p[1] for p in xy], shape)
+    data = tuple(lay_(d, shape) for d in case["data"])
+    weights = None if case["weights"] is None else tuple(lay_(w, shape) for w in case["weights"])
     arrays = [e, n] + list(data) + (list(weights) if weights else [])
     before = [a.copy() for a in arrays]
     if case["readonly"]:
@@ -205,11 +206,12 @@ def vtw_cases(draw):
         comps.append(vals)
         shapes.append(draw(st.sampled_from(blocks.shape_options(n))))
     return dict(comps=comps, shapes=shapes, dtype=draw(st.sampled_from(["float64", "float32"])), readonly=draw(st.booleans()),
-                as_list=draw(st.booleans()), tol=draw(st.sampled_from([None, None, 1e-15, 1e-3, 0.5])))
+                as_list=draw(st.booleans()), tol=draw(st.sampled_from([None, None, 1e-15, 1e-3, 0.5])), orders=draw(build.orders_strategy()))
 
 
 def check_vtw(case, ctx):
-    arrs = [np.array(c, dtype="float64").reshape(s) for c, s in zip(case["comps"], case["shapes"])]
+    lay_ = build.Lay(case.get("orders"))
+    arrs = [lay_(c, s) for c, s in zip(case["comps"], case["shapes"])]
     before = [a.copy() for a in arrs]
     if case["readonly"]:
         for a in arrs:
